@@ -242,7 +242,7 @@ def check_c12(tier):
         lines = [l for l in str(e).splitlines() if 'error' in l][:2]
         V.add_violation('feature-combination-does-not-compile', 'serialization together with other features does not compile: %s' % ' | '.join(l.strip()[:300] for l in lines), dict(kind='build', output=str(e)[-3000:]))
     sweep(V, tier, ['peer-manual-ser', 'root-auto-ser'], 200 if tier == 'quick' else 1700)
-    V.violations = [v for v in V.violations if not re.match(r'(dispatch|access-identity|control-stateId|initial-state)', v['pred'])]
+    V.violations = [v for v in V.violations if not re.match(r'(dispatch|access-identity|control-stateId|initial-state|state-data)', v['pred'])]
     return V.finish(rule='fsmx: save and load(every canonical buffer) are operations of the alphabet from every reachable state; sweep: every (saver activity, loader activity) pair for each N')
 
 # =========================================================================== C13
@@ -490,6 +490,6 @@ def _big_sweep(V, tier, flavours, ns, keep):
     sweep(V, tier, flavours, 200 if tier == 'quick' else 900, ns=ns)
     V.violations = V.violations[:before] + [v for v in V.violations[before:] if re.search(keep, v['pred'] + ' ' + v['text'])]
 _old05 = vc.POST_HOOKS.get('C05')
-vc.POST_HOOKS['C05'] = lambda V, tier: _big_sweep(V, tier, ['root-auto'], [8, 17, 128, 129, 255] if tier == 'quick' else [8, 16, 17, 33, 64, 65, 127, 128, 129, 130, 200, 254, 255], r' update | react | query |state-data')
+vc.POST_HOOKS['C05'] = lambda V, tier: _big_sweep(V, tier, ['root-auto'], [8, 17, 128, 129, 255] if tier == 'quick' else [8, 16, 17, 33, 64, 65, 127, 128, 129, 130, 200, 254, 255], r'dispatch-phase|state-data')
 vc.POST_HOOKS['C08'] = lambda V, tier: _big_sweep(V, tier, ['root-auto-plans', 'peer-auto-plans'] if tier == 'thorough' else ['root-auto-plans'], [9, 65, 250, 255] if tier == 'quick' else [2, 8, 9, 16, 17, 64, 65, 128, 129, 248, 249, 250, 254, 255], r'plan|state-data')
 vc.POST_HOOKS['C09'] = lambda V, tier: _big_sweep(V, tier, ['root-auto-plans'], [9, 65, 250, 255] if tier == 'quick' else [2, 8, 9, 16, 17, 64, 65, 128, 129, 248, 249, 250, 254, 255], r'plan|outcome|state-data')
